@@ -284,6 +284,9 @@ OBJ = [
     ('sdof.calc_resp_uke_spectrum', 2, lambda s: sdof.calc_resp_uke_spectrum(s, periods=AUX['P'])),
     ('surface.calc_surface_energy', 2, lambda s: surface.calc_surface_energy(s, AUX['TT'])),
     ('surface.calc_surface_energy(scalar tt, arrays red)', 2, lambda s: surface.calc_surface_energy(s, AUX['TT'], up_red=AUX['UR'], down_red=AUX['DR'], nodal=False)),
+    ('surface.calc_surface_energy(nodal, arrays red)', 2, lambda s: surface.calc_surface_energy(s, AUX['TT'], up_red=AUX['UR'], down_red=AUX['DR'], nodal=True)),
+    ('surface.calc_cum_abs_surface_energy(nodal, arrays red)', 2, lambda s: surface.calc_cum_abs_surface_energy(s, AUX['TT'], up_red=AUX['UR'], down_red=AUX['DR'])),
+    ('surface.get_time_shift_motions(nodal, arrays red)', 2, lambda s: surface.get_time_shift_motions(s, AUX['TT'], up_red=AUX['UR'], down_red=AUX['DR'])),
     ('surface.calc_cum_abs_surface_energy', 2, lambda s: surface.calc_cum_abs_surface_energy(s, AUX['TT'], trim=True, start=True, stt=0.2)),
     ('surface.get_time_shift_motions', 2, lambda s: surface.get_time_shift_motions(s, AUX['TT'])),
     ('frequency.generate_fa_spectrum', 2, frequency.generate_fa_spectrum),
@@ -311,6 +314,8 @@ OBJ = [
     ('Signal.gen_fa_spectrum(n)', 2, lambda s: (s.gen_fa_spectrum(n=9), s.fa_spectrum.copy(), s.fa_freqs.copy())[1:]),
     ('Signal.gen_smooth_fa_spectrum', 4, lambda s: (s.gen_smooth_fa_spectrum(band=20), s.smooth_fa_spectrum.copy())[1:]),
 ]
+# registry entries whose probe itself returns copies / for which returning the live object is the documented behaviour
+EXEMPT_SCRIBBLE = ('Signal.gen_', 'AccSignal.gen_')
 # public callables deliberately not in the registry
 EXCLUDE = {
     'plotting / need matplotlib': ['stockwell.plot_stock', 'stockwell.plot_tifq_vals', 'stockwell.plot_fas_at_time', 'stockwell.plot_windowed_fas_at_time',
@@ -517,6 +522,28 @@ def run_cluster(case, r):
                         r.fail('ownership.npts', dict(sub, op=opname, signal=i), 'len(values) != npts after Cluster.%s' % opname)
 
 
+def object_state(s):
+    """what an analysis function taking a signal object must leave alone: the record and the object's settings"""
+    st = [snapshot(np.asarray(s.values)), s.dt, s.npts, snapshot(np.asarray(s.smooth_fa_freqs))]
+    if hasattr(s, 'response_times'):
+        st.append(snapshot(np.asarray(s.response_times)))
+    return tuple(st)
+
+
+def _scribble_result(res):
+    """the caller post-processes what it got back, in place"""
+    if isinstance(res, (tuple, list)):
+        for x in res:
+            _scribble_result(x)
+    elif isinstance(res, np.ndarray) and res.flags.writeable and res.size:
+        try:
+            res[...] = 0
+        except Exception:
+            pass
+    elif hasattr(res, 'values') and isinstance(getattr(res, 'values', None), np.ndarray):
+        _scribble_result(res.values)
+
+
 def check_call(r, name, fn, args, snap_of0, sub):
     """one purity probe: snapshot, call, compare, call again, compare results"""
     def snap_of():
@@ -526,7 +553,14 @@ def check_call(r, name, fn, args, snap_of0, sub):
     res = []
     for rep in range(2):
         try:
-            res.append(('ok', fn(*args)))
+            out = fn(*args)
+            if rep == 0 and not name.startswith(EXEMPT_SCRIBBLE):
+                # compare the second call with a private copy of the first result, after overwriting the first result in place:
+                # a function that hands out an internal / cached array by reference does not "return the same result again"
+                keep = copy.deepcopy(out)
+                _scribble_result(out)
+                out = keep
+            res.append(('ok', out))
         except AssertionError as e:
             if 'MUTATED-ARG' in str(e):
                 r.n_cmp += 1
@@ -577,7 +611,10 @@ def run_B(case, r):
                     except Exception:
                         continue
                     r.states += 1
-                    check_call(r, name, fn, (s,), lambda: (snapshot(x), snapshot(np.asarray(s.values))),
+                    # methods of the object that take new settings (periods, n, band) are settings operations by design: for
+                    # them only the record is snapshot; free functions taking a signal must leave its settings alone as well
+                    own_method = name.startswith(('AccSignal.', 'Signal.gen_'))
+                    check_call(r, name, fn, (s,), (lambda: (snapshot(x), snapshot(np.asarray(s.values)))) if own_method else (lambda: (snapshot(x), object_state(s))),
                                {'fn': name, 'w': w, 'container': kind, 'obj': ctor.__name__})
 
 
